@@ -3,6 +3,7 @@
 // API gets exactly-sized heap copies (ASan redzones are the memory oracle).
 // References: RFC 4648 base16 (upper case), base64 and base64url encoders written here.
 #include "mc.hpp"
+#include <algorithm>
 #include <cstdint>
 #include <cstdlib>
 #include <cstring>
@@ -101,12 +102,35 @@ struct Exact
     Exact(const Exact &) = delete;
 };
 
+// long texts in messages: head ... tail (length); and the first differing offset of two texts
+static string abbr(const string &t)
+{
+    if (t.size() <= 48)
+        return t;
+    return t.substr(0, 20) + "..." + t.substr(t.size() - 12) + mc::fmt("(%zu chars)", t.size());
+}
+static string hexabbr(const void *p, size_t n)
+{
+    const uint8_t *b = (const uint8_t *)p;
+    if (n <= 16)
+        return mc::hex(b, n);
+    return mc::hex(b, 8) + "..." + mc::hex(b + n - 4, 4) + mc::fmt("(%zu bytes)", n);
+}
+static size_t firstdiff(const void *a, size_t na, const void *b, size_t nb)
+{
+    size_t i = 0;
+    while (i < na && i < nb && ((const uint8_t *)a)[i] == ((const uint8_t *)b)[i])
+        i++;
+    return i;
+}
+static size_t firstdiff(const string &a, const string &b) { return firstdiff(a.data(), a.size(), b.data(), b.size()); }
+
 static const char *len_class(size_t n) { return n == 0 ? "empty" : (n % 3 == 0 ? "mod3_0" : (n % 3 == 1 ? "mod3_1" : "mod3_2")); }
 
 // every codec on one byte string
 static void check_string(const uint8_t *x, size_t n)
 {
-    string hx = mc::hex(x, n);
+    string hx = hexabbr(x, n);
     Exact in(n, x);
     string xs((const char *)x, n);
 
@@ -118,12 +142,14 @@ static void check_string(const uint8_t *x, size_t n)
         hexascii_encode(in.p, (int)n, out.p);
         string got((const char *)out.p, 2 * n);
         if (got != want_hex)
-            mc::violation("C18.hexascii_encode.value", "x=%s got %s want %s", hx.c_str(), got.c_str(), want_hex.c_str());
+            mc::violation("C18.hexascii_encode.value", "x=%s got %s want %s (first difference at text offset %zu)", hx.c_str(), abbr(got).c_str(), abbr(want_hex).c_str(),
+                          firstdiff(got, want_hex));
         Exact back(n);
         mc::crash_context("C18.hexascii_decode.memory");
         hexascii_decode(out.p, (int)(2 * n), back.p);
         if (n && memcmp(back.p, x, n) != 0)
-            mc::violation("C18.hexascii_decode.roundtrip", "x=%s decode(encode(x))=%s", hx.c_str(), mc::hex(back.p, n).c_str());
+            mc::violation("C18.hexascii_decode.roundtrip", "x=%s decode(encode(x))=%s (first difference at byte %zu)", hx.c_str(), hexabbr(back.p, n).c_str(),
+                          firstdiff(back.p, n, x, n));
     }
     // ---- hexascii, std::string API (three overloads of encode; decode overloads are declared but not defined)
     {
@@ -132,8 +158,8 @@ static void check_string(const uint8_t *x, size_t n)
         string b = igris::hexascii_encode(xs);
         string c = igris::hexascii_encode(igris::buffer(in.p, n));
         if (a != want_hex || b != want_hex || c != want_hex)
-            mc::violation("C18.hexascii_string_encode.value", "x=%s got %s / %s / %s want %s", hx.c_str(), a.c_str(), b.c_str(), c.c_str(),
-                          want_hex.c_str());
+            mc::violation("C18.hexascii_string_encode.value", "x=%s got %s / %s / %s want %s", hx.c_str(), abbr(a).c_str(), abbr(b).c_str(), abbr(c).c_str(),
+                          abbr(want_hex).c_str());
         if (a.size() != 2 * n)
             mc::violation("C18.hexascii_string_encode.length", "x=%s length %zu want %zu", hx.c_str(), a.size(), 2 * n);
         // the C decoder accepts what the C++ encoder produced
@@ -142,7 +168,8 @@ static void check_string(const uint8_t *x, size_t n)
         mc::crash_context("C18.hexascii_decode.memory");
         hexascii_decode(enc.p, (int)a.size(), back.p);
         if (a.size() == 2 * n && n && memcmp(back.p, x, n) != 0)
-            mc::violation("C18.hexascii_decode.roundtrip", "x=%s decode(string encode(x))=%s", hx.c_str(), mc::hex(back.p, n).c_str());
+            mc::violation("C18.hexascii_decode.roundtrip", "x=%s decode(string encode(x))=%s (first difference at byte %zu)", hx.c_str(), hexabbr(back.p, n).c_str(),
+                          firstdiff(back.p, n, x, n));
     }
     // ---- base64 / base64url
     for (int url = 0; url < 2; url++)
@@ -154,19 +181,20 @@ static void check_string(const uint8_t *x, size_t n)
         string e2 = url ? igris::base64url_encode(xs) : igris::base64_encode(xs);
         if (e1.size() != 4 * ((n + 2) / 3))
             mc::violation(mc::fmt("C18.%s_encode.length.%s", nm, len_class(n)), "x=%s encoded '%s' has length %zu, want %zu", hx.c_str(),
-                          e1.c_str(), e1.size(), 4 * ((n + 2) / 3));
+                          abbr(e1).c_str(), e1.size(), 4 * ((n + 2) / 3));
         if (!in_alphabet(e1, url ? "-_" : "+/"))
-            mc::violation(mc::fmt("C18.%s_encode.alphabet", nm), "x=%s encoded '%s'", hx.c_str(), mc::hex(e1.data(), e1.size()).c_str());
+            mc::violation(mc::fmt("C18.%s_encode.alphabet", nm), "x=%s encoded '%s'", hx.c_str(), hexabbr(e1.data(), e1.size()).c_str());
         if (e1 != want)
-            mc::violation(mc::fmt("C18.%s_encode.value.%s", nm, len_class(n)), "x=%s got '%s' want '%s'", hx.c_str(), e1.c_str(), want.c_str());
+            mc::violation(mc::fmt("C18.%s_encode.value.%s", nm, len_class(n)), "x=%s got '%s' want '%s' (first difference at text offset %zu)", hx.c_str(), abbr(e1).c_str(), abbr(want).c_str(),
+                          firstdiff(e1, want));
         if (e2 != e1)
-            mc::violation(mc::fmt("C18.%s_encode.string_overload", nm), "x=%s pointer overload '%s' string overload '%s'", hx.c_str(), e1.c_str(),
-                          e2.c_str());
+            mc::violation(mc::fmt("C18.%s_encode.string_overload", nm), "x=%s pointer overload '%s' string overload '%s'", hx.c_str(), abbr(e1).c_str(),
+                          abbr(e2).c_str());
         mc::crash_context("C18.%s_decode.memory", nm);
         string d = url ? igris::base64url_decode(e1) : igris::base64_decode(e1);
         if (d != xs)
-            mc::violation(mc::fmt("C18.%s_decode.roundtrip.%s", nm, len_class(n)), "x=%s encode(x)='%s' decode(encode(x))=%s (%zu bytes)", hx.c_str(),
-                          e1.c_str(), mc::hex(d.data(), d.size() > 24 ? 24 : d.size()).c_str(), d.size());
+            mc::violation(mc::fmt("C18.%s_decode.roundtrip.%s", nm, len_class(n)), "x=%s encode(x)='%s' decode(encode(x))=%s (%zu bytes, first difference at byte %zu)", hx.c_str(),
+                          abbr(e1).c_str(), hexabbr(d.data(), d.size()).c_str(), d.size(), firstdiff(d, xs));
         if (url == 0 && e1.size() >= 2)
             mc::outcome(e1.substr(0, 2)); // coarse: at most 4096 distinct values
     }
@@ -375,6 +403,45 @@ MC_INIT
             mc::tick();
         }
         mc::more_cases((uint64_t)64 * n2 - 1, (uint64_t)64 * n2 - 1);
+        mc::nontrivial();
+    });
+
+    // (f) long inputs: lengths around 2^7, 2^8 (thorough: 2^16) and beyond, so that a counter, index or size
+    // narrowed to 8/16 bits (or a signed char index) cannot hide; x n mod 3 variants x byte patterns
+    mc::add_check("long_inputs_around_256_and_65536", [] {
+        static const size_t base_q[] = {127, 128, 255, 256, 257, 300, 1000};
+        static const size_t base_t[] = {127, 128, 255, 256, 257, 300, 1000, 65535, 65536, 65537};
+        const size_t *base = mc::thorough() ? base_t : base_q;
+        int nb = mc::thorough() ? 10 : 7;
+        static const long onepos[] = {0, 1, 254, 255, 256, 257, -1}; // -1: the last byte
+        int c = mc::choose(nb * 3 * 10);
+        size_t n = base[c / 30] + (size_t)(c / 10 % 3);
+        int pat = c % 10;
+        std::vector<uint8_t> m(n, 0);
+        string pn;
+        if (pat == 0)
+        {
+            for (size_t i = 0; i < n; i++)
+                m[i] = (uint8_t)(i % 251); // period 251: position i and i+256 differ
+            pn = "counting mod 251";
+        }
+        else if (pat == 1)
+            pn = "all 00";
+        else if (pat == 2)
+        {
+            std::fill(m.begin(), m.end(), 0xFF);
+            pn = "all FF";
+        }
+        else
+        {
+            long p = onepos[pat - 3];
+            size_t at = (p < 0 || (size_t)p >= n) ? n - 1 : (size_t)p;
+            m[at] = 0x01;
+            pn = mc::fmt("single 01 at byte %zu", at);
+        }
+        mc::describe("length %zu (%zu+%d), %s", n, base[c / 30], c / 10 % 3, pn.c_str());
+        check_string(m.data(), n);
+        mc::outcome(mc::fmt("%zu/%d", n % 3, pat));
         mc::nontrivial();
     });
 
